@@ -155,6 +155,43 @@ pub fn run(ctx: &mut Ctx) {
                 }
             }
         }
+        // 1c. add_salt_instance adds exactly the given salt; the *_using entry points obey the same
+        //     length rules and are deterministic for equal generators
+        {
+            ctx.eval();
+            ctx.count("instance_and_using_entry_points");
+            let glen = rng.range(8, 40);
+            let given = Salt::from_data(rng.bytes(glen));
+            let s = base.add_salt_instance(given.clone());
+            let lens = salts_of(&s);
+            if preserved(&before, &tree_of(&s), 1).is_some() && !salts_of(&base).contains(&Some(given.len())) || !lens.contains(&Some(given.len())) {
+                ctx.violation("add_salt_instance", "add_salt_instance did not add exactly the given salt", replay());
+            }
+            let mut g1 = bc_rand::make_fake_random_number_generator();
+            let mut g2 = bc_rand::make_fake_random_number_generator();
+            let u1 = base.add_salt_using(&mut g1);
+            let u2 = base.add_salt_using(&mut g2);
+            if env_bytes(&u1) != env_bytes(&u2) {
+                ctx.violation("add_salt_using/nondeterministic", "add_salt_using with equal generators gave different envelopes", replay());
+            }
+            let (lo, hi) = doc_range(n);
+            let old: HashSet<D32> = base.assertions().iter().map(d32).collect();
+            for a in u1.assertions() {
+                if !old.contains(&d32(&a)) {
+                    let l = a.as_object().and_then(|o| o.extract_subject::<Salt>().ok()).map(|x| x.len());
+                    if !matches!(l, Some(l) if l >= lo && l <= hi) {
+                        ctx.violation("add_salt_using/length", &format!("salt of {:?} bytes for {} bytes; range {}..={}", l, n, lo, hi), replay());
+                    }
+                }
+            }
+            let mut g3 = bc_rand::make_fake_random_number_generator();
+            if base.add_salt_with_len_using(7, &mut g3).is_ok() || base.add_salt_with_len_using(12, &mut g3).map(|x| salts_of(&x).contains(&Some(12))).unwrap_or(false) == false {
+                ctx.violation("add_salt_with_len_using", "add_salt_with_len_using accepted 7 bytes or did not add 12", replay());
+            }
+            if base.add_salt_in_range_using(&(3..=9), &mut g3).is_ok() || base.add_salt_in_range_using(&(9..=11), &mut g3).is_err() {
+                ctx.violation("add_salt_in_range_using", "add_salt_in_range_using accepted a range starting below 8 or refused 9..=11", replay());
+            }
+        }
         // 2. add_salt_with_len
         for c in [0usize, 1, 7, 8, 9, 16, 33, 1000] {
             ctx.eval();
